@@ -669,7 +669,12 @@ class Parser:
         value = None
         text = str(self._current_token)
         if self._current_token.is_a(TokenTypes.NUMBER):
-            value = int(text) if Lex.is_int(text) else float(text)
+            try:
+                value = int(text) if Lex.is_int(text) else float(text)
+            except ValueError:
+                # int() refuses literals that have thousands of digits.
+                self.trigger_error(
+                    'Number out of range: {}...'.format(text[:20]))
         elif self._current_token.is_a(TokenTypes.LITERAL_STRING):
             value = str(self._current_token)
         elif self._current_token.is_a(TokenTypes.TIME_PATTERN):
